@@ -298,7 +298,12 @@ def run_class_ops(x, name, nfft_arg, ops, sbf=False, detrend=None, sampling=1.0,
     given = as_intype(x, intype)
     if mutate and isinstance(given, np.ndarray):
         given = given.copy()
-    p = Periodogram(given, sampling=sampling, window=name, NFFT=nfft_arg, scale_by_freq=sbf, detrend=detrend)
+    if isinstance(given, np.ndarray) and not mutate and given.ndim == 1 and len(given) >= 2:
+        from props import _estimators as E
+        route, _ = E.route_for(given, name, nfft_arg, repr(ops))
+        p = E.via(lambda d, n, s_, b: Periodogram(d, sampling=s_, window=name, NFFT=n, scale_by_freq=b, detrend=detrend), given, nfft_arg, sampling, sbf, route)
+    else:
+        p = Periodogram(given, sampling=sampling, window=name, NFFT=nfft_arg, scale_by_freq=sbf, detrend=detrend)
     if mutate and isinstance(given, np.ndarray):
         given[...] = given * 3 + 1          # the caller re-uses its buffer: the object must keep the samples it was given
     cur = name
@@ -681,7 +686,7 @@ def corr_exact(ctx, cases, meta):
 
 
 # ----------------------------------------------------------------------------- search
-def search(ctx):
+def search(ctx, requeue=()):
     rng = ctx.rng
     W = window_list()
     big = ctx.q(64, 160)
@@ -694,6 +699,9 @@ def search(ctx):
             bad = [('raises/%s/%s' % (r['function'], type(e).__name__), 'raised %r on an admissible input' % (e,))]
         for key, what in bad:
             ctx.violation(key, what, r)
+
+    for j, r in enumerate(list(requeue)[:12]):
+        report(r, ('requeued-class', j, r['x'], r['window'], str(r['NFFT']), tuple(r['ops'])))
 
     # 1-D definition / length / Parseval: every window x every N in 1..33, then random
     cats = ['even', 'odd', 'prime', 'pow2']
@@ -771,6 +779,7 @@ def run(ctx):
     else:
         ctx.check_generated('c01_pipeline', vtext, ['call_pipeline_is_modelled'])
     pre = pre_float()
+    requeue = []
     for nm, gen, pr, descr in (
             ('c01_speriodogram', corr_speriodogram, pre, 'speriodogram (1-D) vs Model.Periodogram.speriodogram at binary64 pairs, twiddle table from the harness'),
             ('c01_speriodogram2d', corr_2d, pre, 'speriodogram (2-D input) vs speriodogram2d'),
@@ -784,7 +793,13 @@ def run(ctx):
             ctx.broken.append({'theorem': 'harness:%s (exception while generating cases)' % nm, 'where': nm, 'log': traceback.format_exc()[-2000:]})
         for i in ctx.coq_cases(nm, pr, cases[:len(meta)], descr=descr):
             ctx.corr_disagreement(meta[i]['function'], i, meta[i])
-    search(ctx)
+            if nm == 'c01_class':
+                # a disagreeing object history: evaluate the same history (same data, window, NFFT, operations, hence the same derived
+                # route) with the search's independent DFT oracle; if the definition clause fails it becomes a violation with a replay
+                m = meta[i]
+                requeue.append({'function': 'Periodogram', 'x': m['x'], 'window': m['window'], 'NFFT': m['NFFT'], 'ops': m['ops'],
+                                'detrend': m.get('detrend'), 'complex': m['complex'], 'intype': None, 'mutate': False})
+    search(ctx, requeue)
 
     # ---------------- results depend on the VALUES given only: call protocol (repeat, aliasing, buffer reuse, memory layout, integer / single-precision dtypes)
     from props import _purity
